@@ -21,7 +21,7 @@ import numpy as np
 from vlib import mainloop as ml
 from vlib import seams
 from vlib import drivers  # noqa: F401
-from vlib.ctx import Acc, HarnessError, VERIF, stopped
+from vlib.ctx import scratch_dir, Acc, HarnessError, VERIF, stopped
 from vlib.seams import TRACER
 from checks.c07 import FIELDS, same_value
 
@@ -331,7 +331,7 @@ def run(ctx):
     for r in run_mode(ctx, "nojit"):
         ctx.take(r)
     n0 = ctx.cov["evaluations"]
-    out = tempfile.mkdtemp(prefix="c19_", dir=os.path.join(VERIF, "replays"))
+    out = scratch_dir("c19_")
     path = os.path.join(out, "jit.json")
     try:
         p = subprocess.run([sys.executable, "-m", "vlib.run", "C19", "--tier", ctx.tier, "--mode", "jit",
